@@ -162,7 +162,17 @@ INJECTED = {
                             "thorough": ["delete_entries_n0", "delete_entries_n1", "delete_entries_n2", "delete_entries_n3", "delete_entries_n4",
                                          "delete_entries_n5", "delete_entries_requires_is_needed"]},
                            "entries.len() <= 3 (quick) / <= 5 (thorough); contents and the ascending delete list are symbolic"),
+    "meta_fixed_point": ("patronus", "patronus/src/expr/meta.rs", "kl/inject/meta.rs",
+                         {"quick": ["get_fixed_point_n2", "get_fixed_point_n4", "get_fixed_point_n6"],
+                          "thorough": ["get_fixed_point_n2", "get_fixed_point_n4", "get_fixed_point_n6", "get_fixed_point_n8"]},
+                         "maps with <= 6 (quick) / <= 8 (thorough) keys; every acyclic map up to renaming, every key"),
 }
+
+
+def inject_text(inject_rel: str) -> str:
+    """harness module with the replay shim (kl/inject/shim.rs) spliced in"""
+    t = open(os.path.join(VERIF, inject_rel), encoding="utf-8").read()
+    return "\n" + t.replace("    //@@SHIM@@\n", open(os.path.join(VERIF, "kl/inject/shim.rs"), encoding="utf-8").read())
 
 
 def scratch_tree(repo: str, scratch: str) -> str:
@@ -180,7 +190,7 @@ def run_injected(unit: str, repo: str, scratch: str, tier: str):
     marker = "// injected by /verif (engine KL)"
     text = open(target, encoding="utf-8").read()
     if marker not in text:
-        open(target, "a", encoding="utf-8").write(open(os.path.join(VERIF, inject_rel), encoding="utf-8").read())
+        open(target, "a", encoding="utf-8").write(inject_text(inject_rel))
     names = harnesses[tier]
     tgt = os.environ.get("VERIF_KANI_TARGET", "/var/tmp/patronus-verif-kani-target")
     os.makedirs(tgt, exist_ok=True)
